@@ -240,6 +240,37 @@ class extract_visitor(NodeVisitor):
         self.flow = self.make_flow('join', ends)
         self.flow.scope.flow = self.flow
 
+    def visit_Compare(self, node):
+        # type: (ast.Compare) -> None
+        if not self._binds(node.comparators[1:]):
+            self.generic_visit(node)
+            return
+        # `a < b < (x := 3)`: the chain ends at the first link that is false
+        self.visit(node.left)
+        self.visit(node.comparators[0])
+        ends = [self.flow]
+        cur = self.flow
+        for value in node.comparators[1:]:
+            cur = self.visit_in_flow(value, self.make_flow('compare', [cur]))
+            ends.append(cur)
+        self.flow = self.make_flow('join', ends)
+        self.flow.scope.flow = self.flow
+
+    def visit_Assert(self, node):
+        # type: (ast.Assert) -> None
+        self.visit(node.test)
+        if node.msg is None:
+            return
+        if not self._binds([node.msg]):
+            self.visit(node.msg)
+            return
+        # the message is evaluated when the assertion has failed: what it
+        # binds does not reach the statements that follow
+        cur = self.flow
+        self.visit_in_flow(node.msg, self.make_flow('assert-msg', [cur]))
+        self.flow = self.make_flow('join', [cur])
+        self.flow.scope.flow = self.flow
+
     def visit_For(self, node):
         # type: (ast.For | ast.AsyncFor) -> None
         self.visit(node.iter)
